@@ -2,6 +2,7 @@ package main
 
 import (
 	"math"
+	"strconv"
 )
 
 func float64bits(f float64) uint64     { return math.Float64bits(f) }
@@ -17,6 +18,89 @@ var hostile = []string{
 // float values of the design + extremes of float64.
 var floats = []float64{0, math.Copysign(0, -1), 1, -1, 0.1, 1e21, 1e22, 1e-7, 5e-324, 9007199254740993, 123456789.123456789,
 	math.MaxFloat64, -math.MaxFloat64, math.NaN(), math.Inf(1), math.Inf(-1)}
+
+// floatGrid: the value alphabet of every numeric field is a GRID, not a list of extremes: mantissas x decimal
+// exponents x signs (correctly rounded by strconv), plus integers around 2^53 and 2^63 and the specials.
+// The exponents cover every last digit 0-9 at one, two and three exponent digits and are dense around the points
+// where formatters switch notation (1e-7..1e-4, 1e20..1e22) and at both ends of the float64 range.
+var floatGrid = buildFloatGrid()
+
+func buildFloatGrid() []float64 {
+	mants := []string{"1", "1.5", "1.25", "9.999999999999999", "1.0000000000000002", "123456789.12345678"}
+	var exps []int
+	for e := -29; e <= 29; e++ { // one- and two-digit exponents, every last digit, both switch regions
+		exps = append(exps, e)
+	}
+	for e := 100; e <= 109; e++ {
+		exps = append(exps, e, -e)
+	}
+	for e := 290; e <= 308; e++ {
+		exps = append(exps, e)
+	}
+	for e := 290; e <= 324; e++ {
+		exps = append(exps, -e)
+	}
+	seen := map[uint64]bool{}
+	var out []float64
+	add := func(f float64) {
+		if b := math.Float64bits(f); !seen[b] {
+			seen[b] = true
+			out = append(out, f)
+		}
+	}
+	for _, f := range floats {
+		add(f)
+	}
+	for _, m := range mants {
+		for _, e := range exps {
+			f, err := strconv.ParseFloat(m+"e"+strconv.Itoa(e), 64)
+			if err != nil || math.IsInf(f, 0) || f == 0 {
+				continue // outside the float64 range for this mantissa
+			}
+			add(f)
+			add(-f)
+		}
+	}
+	for _, base := range []float64{1 << 53, 1 << 63, 1 << 64, 1 << 31, 1 << 32} {
+		for _, f := range []float64{math.Nextafter(base, 0), base, math.Nextafter(base, math.Inf(1)), base + 1, base - 1} {
+			add(f)
+			add(-f)
+		}
+	}
+	return out
+}
+
+// gridChunks splits the grid into chunks of n values (one response carries one chunk).
+func gridChunks(n int) [][]float64 {
+	var out [][]float64
+	for i := 0; i < len(floatGrid); i += n {
+		out = append(out, floatGrid[i:min(i+n, len(floatGrid))])
+	}
+	return out
+}
+
+// gridCases: the float grid through the matrix encoder (one series, one row per value) and the vector encoder
+// (one series per value), 48 values per response.
+func gridCases(endpoint string, emit func(*QRCase)) {
+	for _, chunk := range gridChunks(48) {
+		c := &QRCase{Endpoint: endpoint, EOF: true}
+		switch endpoint {
+		case "range_matrix":
+			c.Series = []SeriesDef{{FP: 7, Labels: map[string]string{"k": "v"}}}
+			for i, f := range chunk {
+				c.Rows = append(c.Rows, Row{S: 0, TS: int64(i+1) * 1e9, Val: f})
+			}
+		case "instant_vector":
+			for i, f := range chunk {
+				c.Series = append(c.Series, SeriesDef{FP: uint64(100 + i), Labels: map[string]string{"i": strconv.Itoa(i)}})
+				c.Rows = append(c.Rows, Row{S: i, TS: 5e9, Val: f})
+			}
+		}
+		c.Batches = []int{len(c.Rows)}
+		c.fixBits()
+		emit(c)
+	}
+}
 
 // timestamps (ns): 0, 1, 2^53+1, max int64.
 var stamps = []int64{0, 1, 9007199254740993, math.MaxInt64}
